@@ -66,6 +66,7 @@ Proof.
   - destruct guarded; [discriminate|discriminate].
   - discriminate.
   - discriminate.
+  - destruct nil_checked; [discriminate|discriminate].
 Qed.
 
 Corollary site_safe_sound c s :
